@@ -6,6 +6,10 @@ TECH = "contract-based deductive verification: WP/VC generation over the typed G
 
 # id -> (level category, level text, level_note, design_ref)
 CLAIMS = {
+ "C22": ("proof",
+         "oauth.ValidateJWT, parseAndValidateJWT (and its keyfunc closure, verified as a function of its own), selectVerificationKey, keyByID, allKeys, findKeyByID, refreshJWKS and resetJWKSCache are under contract: a nil error implies the JWT library verified the signature with a key the keyfunc returned (published JWKS keys only, ECDSA/RSA only), expiry was required and lies in the future, issuer/audience options were set from the configuration, and the jti was looked up in the revocation list on this call (both on a result-cache hit and on a miss). The JWKS cache carries a package invariant (every cached key is a published key) checked at every writer; the result cache carries an insertion-time invariant backed by table obligations (call-site census, entry immutability).",
+         "Trusted: golang-jwt/v5 ParseWithClaims (signature verification with the keyfunc's key, enforcement of parser options), JWK parsing, tokens.IsIDBlacklisted (revocation list, C21), caches.Find/Add as a map for OAuthJWTCache (C28). Fail-open when the revocation lookup itself errors is outside the property's quantifier and is visible in the contract (lookupFailed). Sequential semantics.",
+         "§7 C22"),
  "C25": ("proof",
          "auth.ValidatePassword carries the property statement as a two-way postcondition (result <==> user exists case-insensitively && stored credential matches in its format && logon or root permission), findPermission and HashPassword have their own contracts, and the migration write is an anchored assertion (what is written is a bcrypt hash of the password just accepted, for the same user). All obligations discharge for all inputs.",
          "Trusted: bcrypt compare/generate agree (bcryptOK); the user store behind the userIOService interface returns the stored record (C30/C31); settings.GetBool is a function of the setting name during one call; strings.EqualFold/HashString are functions. Hash collisions are outside the model.",
